@@ -5,3 +5,7 @@ import Props.C03
 #print axioms Sched.InvC_step
 #print axioms Sched.InvC_init
 #print axioms Sched.Inv_reach
+#print axioms Sched.bounded_executions
+#print axioms Sched.always_terminates
+#print axioms Sched.mu_decreases
+#print axioms Sched.InvG_step
